@@ -353,7 +353,7 @@ fn c13_corpus(w: &W, f: &mut dyn FnMut(Kind, &[u8])) {
     plan.g1 = true;
     plan.g8 = true;
     plan.g2_small = vec![0x00, 0x09, 0x0D, 0x20, 0x7F, 0x80];
-    plan.g3 = vec![(w.by_tier((20usize, 34, 70, 100)), vec![0x09, 0x7F, 0x80, 0x20], vec![0])];
+    plan.g3 = vec![(w.by_tier((20usize, 34, 70, 100)), vec![0x09, 0x7F, 0x80, 0x20], vec![0]), (w.by_tier((40usize, 70, 200, 420)), vec![0x7F, 0x80], vec![0])];
     plan.g4_hdr = w.by_tier((1, 2, 3, 4));
     plan.g4_line = w.by_tier((1, 1, 2, 3));
     plan.g5 = w.by_tier((20, 300, 20000, 400000));
